@@ -253,6 +253,8 @@ func runC10(c *Check) {
 	c.optionStore()
 	c.perRequestState("C10-R4")
 	c.sharedTablesReadOnly()
+	c.noHiddenSessionState()
+	c.outputFileTruncated()
 }
 
 func isNewCopy(v ssa.Value) bool {
